@@ -262,7 +262,7 @@ NOTES = {
            '`tweak_validity` (a verdict / an adapter only for a valid tweak point), `ptlc_tweak`. The negative clauses "the adapter itself '
            'is not a valid signature" need hash independence beyond the generic-group model and were dropped from the claim (solver unknown); '
            'they are listed as outside.',
-    'C18': 'Harnesses: `amhl` (AMHL class, n ≤ 4 / 6), `wrong_hop`, `tools` (`setup_amhl` + adapter cascade), `tools_noseed` (empty seed), `tools_refunds` (partial refund maps: every hop gets the locks for its own key), `sample` (the hash stub's log shows that '
+    'C18': 'Harnesses: `amhl` (AMHL class, n ≤ 4 / 6), `wrong_hop`, `tools` (`setup_amhl` + adapter cascade), `tools_noseed` (empty seed), `tools_refunds` (partial refund maps: every hop gets the locks for its own key), `sample` (the log of the hash stub shows that '
            '`AMHL.sample` hashes the whole seed and the index).',
     'C19': 'Harnesses: `onestep` (one registry operation from an arbitrary registry state), `history_plugins`, `history_contracts`, '
            '`independence` (compile / assemble / comptime / run results do not depend on an earlier call), `caller_dicts`. Plugins are plain '
